@@ -1,7 +1,7 @@
 //! Neutral views: complgen's compiled DFA and the reference automaton are both turned into
 //! generic NFAs over one interned label alphabet, so that `auto::equivalent` can compare them.
 
-use crate::auto::{determinize, Interner, Nfa, Sym};
+use crate::auto::{determinize_l, Interner, LNfa, Nfa, Sym};
 use crate::refsem::{Allowed, RLabel, RefAuto};
 use complgen::dfa::{Inp, DFA};
 use std::collections::{BTreeSet, HashMap};
@@ -51,8 +51,8 @@ impl Keys {
             }
             RLabel::Star => "*".to_string(),
             RLabel::Sub { auto, level } => {
-                let n = self.ref_nfa(auto);
-                let canon = determinize(&n).canonical(&self.names);
+                let n = self.ref_lnfa(auto);
+                let canon = determinize_l(&n, &mut self.names).canonical(&self.names);
                 format!("S{SEP}{canon}{SEP}{}", self.lvl(*level))
             }
         };
@@ -70,8 +70,8 @@ impl Keys {
             Inp::Star => "*".to_string(),
             Inp::Subword { subdfa, fallback_level } => {
                 let sub = owner.subdfas.verif_lookup(*subdfa);
-                let n = self.impl_nfa(sub, owner);
-                let canon = determinize(&n).canonical(&self.names);
+                let n = self.impl_lnfa(sub, owner);
+                let canon = determinize_l(&n, &mut self.names).canonical(&self.names);
                 format!("S{SEP}{canon}{SEP}{}", self.lvl(*fallback_level))
             }
         };
@@ -149,6 +149,75 @@ impl Keys {
             }
         }
         (n, ids)
+    }
+
+
+    // ---- readings: what *word* an item consumes (levels, descriptions erased) ----------------
+
+    fn with_erased<T>(&mut self, f: impl FnOnce(&mut Keys) -> T) -> T {
+        let (s, e) = (self.strict, self.erase_levels);
+        self.strict = false;
+        self.erase_levels = true;
+        let r = f(self);
+        self.strict = s;
+        self.erase_levels = e;
+        r
+    }
+
+    pub fn ref_read_key(&mut self, l: &RLabel) -> Sym {
+        self.with_erased(|k| {
+            let s = k.ref_key(l);
+            let name = format!("R{SEP}{}", k.names.name(s));
+            k.names.get(&name)
+        })
+    }
+
+    pub fn impl_read_key(&mut self, inp: &Inp, owner: &DFA) -> Sym {
+        self.with_erased(|k| {
+            let s = k.impl_key(inp, owner);
+            let name = format!("R{SEP}{}", k.names.name(s));
+            k.names.get(&name)
+        })
+    }
+
+    pub fn ref_lnfa(&mut self, a: &RefAuto) -> LNfa {
+        let mut lkeys: Vec<Sym> = Vec::with_capacity(a.labels.len());
+        let mut rkeys: Vec<Sym> = Vec::with_capacity(a.labels.len());
+        for l in &a.labels {
+            lkeys.push(self.ref_key(l));
+            rkeys.push(self.ref_read_key(l));
+        }
+        let core = |s: usize| !a.edges[s].is_empty() || s == a.accept;
+        let starts: BTreeSet<usize> = a.start_set().into_iter().filter(|s| core(*s)).collect();
+        let mut n = LNfa { starts, accept: vec![false; a.n], trans: vec![vec![]; a.n] };
+        n.accept[a.accept] = true;
+        let mut cl: HashMap<usize, Vec<usize>> = HashMap::new();
+        for s in 0..a.n {
+            for (l, t) in &a.edges[s] {
+                let c = cl
+                    .entry(*t)
+                    .or_insert_with(|| a.closure(&BTreeSet::from([*t])).into_iter().filter(|s| core(*s)).collect());
+                for u in c.iter() {
+                    n.trans[s].push((rkeys[*l], lkeys[*l], *u));
+                }
+            }
+        }
+        n
+    }
+
+    pub fn impl_lnfa(&mut self, dfa: &DFA, owner: &DFA) -> LNfa {
+        let (plain, ids) = self.impl_nfa_with_ids(dfa, owner);
+        let index: HashMap<u32, usize> = ids.iter().enumerate().map(|(i, s)| (*s, i)).collect();
+        let mut n = LNfa { starts: plain.starts.clone(), accept: plain.accept.clone(), trans: vec![vec![]; ids.len()] };
+        for (from, tos) in &dfa.transitions {
+            for (inp_id, to) in tos {
+                let inp = dfa.verif_input(*inp_id);
+                let l = self.impl_key(inp, owner);
+                let r = self.impl_read_key(inp, owner);
+                n.trans[index[from]].push((r, l, index[to]));
+            }
+        }
+        n
     }
 
     pub fn render_path(&self, p: &[Sym]) -> String {
